@@ -55,7 +55,19 @@ def perturbed_preset(rng):
     return _finish(base, rng)
 
 
+def big_table(rng):
+    """Scale: a table that lists hundreds of atom kinds (every element, many charge states)."""
+    from vmon.smiles_reader import ELEMENTS
+    els = sorted(ELEMENTS)
+    t = {"?": rng.choice([0, 1, 2, 4, 8])}
+    for _ in range(rng.choice([100, 250, 400])):
+        t[key_of(rng.choice(els), rng.choice([0, 0, 1, -1, 2, -2, 3, -3, 4, 5, -5, 7, 9, -9]))] = rng.choice(CAPS)
+    return _finish(t, rng)
+
+
 def any_table(rng):
+    if rng.random() < 0.02:
+        return big_table(rng)
     x = rng.random()
     if x < 0.25:
         return dict(PRESETS[rng.choice(sorted(PRESETS))])
